@@ -307,6 +307,14 @@ class simplify_chained_calls(FuncADLNodeTransformer):
         )  # type: ast.AST
         return self.visit(function_call("SelectMany", [source, lambda_select]))
 
+    def _operator_lambda(self, func: ast.AST) -> ast.AST:
+        """The lambda an operator is given. It may be written in place or reach the operator
+        through a variable (`(lambda f: Select(ds, f))(lambda x: x.pt)`); anything else is handed
+        back visited, and the operator call is left as it is."""
+        if isinstance(func, ast.Lambda):
+            return func
+        return self.visit(func)
+
     def call_Select(self, node: ast.Call, args: List[ast.AST]):
         r"""
         Transformation #1:
@@ -329,8 +337,9 @@ class simplify_chained_calls(FuncADLNodeTransformer):
         is not altered.
         """
         source = args[0]
-        transform = args[1]
-        assert isinstance(transform, ast.Lambda)
+        transform = self._operator_lambda(args[1])
+        if not isinstance(transform, ast.Lambda):
+            return function_call("Select", [self.visit(source), transform])
 
         parent_select = self.visit(source)
         if is_call_of(parent_select, "Select"):
@@ -402,8 +411,9 @@ class simplify_chained_calls(FuncADLNodeTransformer):
         Transformation #3:
         seq.Where(x: f(x)).SelectMany(y: g(y))
         """
-        selection = args[1]
-        assert isinstance(selection, ast.Lambda)
+        selection = self._operator_lambda(args[1])
+        if not isinstance(selection, ast.Lambda):
+            return function_call("SelectMany", [self.visit(args[0]), selection])
         parent_select = self.visit(args[0])
         if is_call_of(parent_select, "SelectMany"):
             return self.visit_SelectMany_of_SelectMany(parent_select, selection)
@@ -500,8 +510,9 @@ class simplify_chained_calls(FuncADLNodeTransformer):
         => SelectMany(seq, x: Where(f(x), g(y)))
         """
         source = args[0]
-        filter = args[1]
-        assert isinstance(filter, ast.Lambda)
+        filter = self._operator_lambda(args[1])
+        if not isinstance(filter, ast.Lambda):
+            return function_call("Where", [self.visit(source), filter])
 
         parent_where = self.visit(source)
         if is_call_of(parent_where, "Where"):
